@@ -10,8 +10,13 @@ both are DISCHARGED for the commands the other units regenerate.  Reading guide:
 * `P : Params` (`Proofs/MonCompose.lean`) collects the parameters of the generated units (the OS `P.w`, the
   device step `P.step`, uninterpreted printers, the fuels `P.fuelFill / fuelRun / fuelDis` of the three
   fuel-bounded loops), the glue `P.G` of `Model/MonComposeRt.lean` (the memory OBJECT around the session's cells,
-  the two I/O addresses) and the methods NOBODY translates: `P.unt` (`do_help`, `do_version`, `do_assemble` with
-  `_interactive_assemble`, `do_cd`, `do_pwd`) with `P.asm` = what the model says `assemble` does.
+  the two I/O addresses) and the five methods that are NOT PLUGGED IN here: `P.unt` (`do_help`, `do_version`,
+  `do_assemble` with `_interactive_assemble`, `do_cd`, `do_pwd`) with `P.asm` = what the model says `assemble`
+  does.  (They ARE translated by now -- unit `asmc`: `Gen/MonAsmGen.lean`, `Proofs/MonAsmGenEq.lean`, property
+  theorems `Props/C20a.lean`, e.g. `assemble_rejected_unchanged`, `display_commands_pure` -- but on that unit's own
+  state type `AsmSt`; the adapter `AsmSt <-> CmdSt` that would instantiate `P.unt` / `P.asm` with the generated
+  methods and so discharge `UntModels` / `AsmHonest` has not been written.  Until then both stay hypotheses, and
+  for these five commands `rejected_unchanged_composed` says only what C20a says separately.)
 * `othG P` is the parameter `oth` of the generated dispatcher built from the GENERATED `do_fill do_load do_save
   do_mem` (MonMemGen, calling the generated `_fill`), `do_step do_goto do_return do_add_breakpoint
   do_delete_breakpoint do_show_breakpoints` (MonRunGen), `do_cycles do_tilde do_disassemble` (MonShowGen),
@@ -22,7 +27,7 @@ both are DISCHARGED for the commands the other units regenerate.  Reading guide:
   raised (the address parser's exception) or the argument was empty (usage text); `step` / `return`: never; for
   the breakpoint commands, `mpu`, `registers`, `radix`, `width`, the label commands: the hand model's verdict, whose
   session core the generated methods are proved to produce for ALL arguments; unknown words, `!…`: always.
-* Remaining hypotheses: `UntModels P` + `AsmHonest P` (the five untranslated commands, spelled out at their
+* Remaining hypotheses: `UntModels P` + `AsmHonest P` (the five commands not plugged in, spelled out at their
   definition), `GlueOK P.G` (the memory object is an object around the session's cells), the fuel bounds
   (`FillFuel`, `LoadFuel`, the dispatcher's `fuel`), `¬ Loops`, a well-formed label table, and the library helpers
   of the units' run-time files.
@@ -59,6 +64,17 @@ theorem never_raises_composed (fuel : Nat) (line : Str) (σ : CmdSt) (e : Exc) (
     MonCmdGen.onecmd (othG P) tb mr fuel line σ ≠ .raise e s :=
   Py65.Proofs.MonCmdGenEq.onecmd_never_raises (othG P) tb mr fuel line σ e s
 
+/-- What `never_raises_composed` leaves open, spelled out: `≠ .raise` is also true of `.nofuel` (the artefact of
+the fuel-bounded model of the `while` loops).  So, with NO hypothesis, the generated `onecmd` either RETURNS
+(a value and a state) or ran out of fuel; `returns_composed` below excludes the second case. -/
+theorem returns_or_nofuel_composed (fuel : Nat) (line : Str) (σ : CmdSt) :
+    (∃ v σ', MonCmdGen.onecmd (othG P) tb mr fuel line σ = .ok v σ') ∨
+    MonCmdGen.onecmd (othG P) tb mr fuel line σ = .nofuel := by
+  cases h : MonCmdGen.onecmd (othG P) tb mr fuel line σ with
+  | ok v s => exact Or.inl ⟨v, s, rfl⟩
+  | raise e s => exact absurd h (never_raises_composed P tb mr fuel line σ e s)
+  | nofuel => exact Or.inr rfl
+
 /-- `dispatch_total`, second half, composed -- and more: for ANY line (refused or not), with enough fuel, outside
 `Loops`, and `CallOK` for the one command the line is dispatched to (its fuel-bounded loop ended; `mem`:
 `self._width ≥ 0`; `tilde`: `itoa` prints base 2), the generated `onecmd` with the generated commands RETURNS,
@@ -75,6 +91,25 @@ theorem onecmd_agrees_composed (hG : GlueOK P.G) (hu : UntModels P) (fuel : Nat)
   rw [preprocess_eq] at hf
   obtain ⟨v, s', e1, e2, e3, e4⟩ := onecmd_sim_composed P tb mr hG hu fuel line σ hf hnl hok
   exact ⟨v, s', e1, e2, e3, by rw [e4]; exact C20.dispatch_total (extG P) _ line⟩
+
+/-- `dispatch_total` as the property words it ("returns without raising"), composed: with fuel above the stated
+bound (`fuel > |preprocessed line| + |preprocessed lastcmd| + 6`), outside `Loops` (the empty line repeating an
+empty-expanding `lastcmd` for ever, a defect recorded in C20), with the glue and `UntModels`, and `CallOK` for the
+one command the line is dispatched to (its own fuel-bounded loop ended), the generated `onecmd` with the generated
+commands RETURNS: the result is `.ok v σ'` -- neither `.raise` nor `.nofuel`.  (Corollary of
+`onecmd_agrees_composed`.) -/
+theorem returns_composed (hG : GlueOK P.G) (hu : UntModels P) (fuel : Nat) (line : Str) (σ : CmdSt)
+    (hf : fuel > (MonPreGen._preprocess_line line).length + (MonPreGen._preprocess_line σ.lastcmd).length + 6)
+    (hnl : ¬ Loops σ line)
+    (hok : ∀ cmd a, dispatched { core := σ.core, lastcmd := σ.lastcmd } line = some (cmd, a) → CallOK P cmd a σ.core) :
+    (∃ v σ', MonCmdGen.onecmd (othG P) tb mr fuel line σ = .ok v σ') ∧
+    MonCmdGen.onecmd (othG P) tb mr fuel line σ ≠ .nofuel ∧
+    ∀ e s, MonCmdGen.onecmd (othG P) tb mr fuel line σ ≠ .raise e s := by
+  obtain ⟨v, σ', h, -⟩ := onecmd_agrees_composed P tb mr hG hu fuel line σ hf hnl hok
+  refine ⟨⟨v, σ', h⟩, ?_, fun e s => never_raises_composed P tb mr fuel line σ e s⟩
+  rw [h]
+  intro h'
+  cases h'
 
 /-- The hypothesis `OthModels oth ext` of `C20g.rejected_unchanged`, DISCHARGED call by call for the composed
 `oth`: every command that unit `cmds` does not translate ends, does to the session core what the model's
@@ -214,6 +249,17 @@ example :
 example :
     let absorbed := fun (l : String) => exRunG l (fun v s => v = none && s.out.contains "TB".toList)
     (absorbed "db 1" && absorbed "goto nosuch" && absorbed "load \"x") = true := by
+  decide +kernel
+
+/-- non-vacuity of `returns_or_nofuel_composed` / `returns_composed`: BOTH alternatives occur -- with too little
+fuel the generated `onecmd` answers `.nofuel` (which `never_raises_composed` alone would have accepted), with
+the fuel of the examples it returns `.ok`. -/
+example :
+    (match MonCmdGen.onecmd (othG exP) (fun _ => "TB".toList) (fun _ => "MPU".toList) 0 "mem 10:13".toList
+        { core := C20g.exCore, lastcmd := [], out := [] } with | .nofuel => true | _ => false) = true ∧
+    (match MonCmdGen.onecmd (othG exP) (fun _ => "TB".toList) (fun _ => "MPU".toList) 3 "mem 10:13".toList
+        { core := C20g.exCore, lastcmd := [], out := [] } with | .nofuel => true | _ => false) = true ∧
+    exRunG "mem 10:13" (fun _ _ => true) = true ∧ exRunG "db 1" (fun _ _ => true) = true := by
   decide +kernel
 
 end Py65.Props.C20h
